@@ -218,38 +218,106 @@ def run(facts, cg):
     # strip_chunks_already_in_place rebuilds the clone index through a filter: an entry is dropped (the closure returns None)
     # only behind the "its list of remaining offsets is empty" edge.  A shortcut that drops an entry on another test (a prefix
     # comparison, a count) leaves wanted places unwritten - nothing asks for that chunk any more.
-    from .r_readers import _reachable_without_edge
-    n_strip = 0
-    for b in facts.bodies.values():
-        par = facts.original.get(b.raw.get('parent') or '')
-        if b.raw['kind'] != 'Closure' or par is None or par.q != STRIP or b.generated:
-            continue
-        if b.lty(0).get('adt') != 'core::option::Option':
-            continue
-        drops = [(bi, st) for bi in b.live for st in b.blocks[bi]['stmts']
-                 if st['k'] == 'assign' and not st['pl']['p'] and st['pl']['l'] == 0 and st['rv']['k'] == 'agg' and st['rv'].get('vname') == 'None']
-        if not drops:
-            continue
-        n_strip += 1
-        empties = []        # (switch block, edge target taken when the list is empty)
+    from .r_readers import _reachable_without_edge, _reachable_without_edges
+
+    def empty_edges(b):
+        """(switch block, target) pairs taken when a list of offsets was found empty"""
+        out = []
         for cbi, ct in b.calls():
             if 'q' in ct['callee'] and callee_q(ct).endswith(('Vec::is_empty', '[T]::is_empty')) and ct['t'] is not None and not ct['dest']['p']:
                 sw = b.blocks[ct['t']]['term']
                 if sw['k'] == 'switch' and sw['op']['k'] in ('copy', 'move') and sw['op']['pl']['l'] == ct['dest']['l']:
-                    empties.append((ct['t'], sw['otherwise']))
+                    out.append((ct['t'], sw['otherwise']))
         for bi in b.live:
             sw = b.blocks[bi]['term']
             if sw['k'] != 'switch':
                 continue
             ct = simplify(T.of_operand(b, sw['op']))
             if isinstance(ct, tuple) and ct[0] == 'binop' and ct[1] in ('Eq', 'Ne') and has_call(ct, '::len') and ('const', 0) in (ct[2], ct[3]):
-                empties.append((bi, sw['otherwise'] if ct[1] == 'Eq' else dict(zip(sw['vals'], sw['targets'])).get(0)))
-        for bi, st in drops:
-            ok = any(tg is not None and not _reachable_without_edge(b, (sbi, tg), bi) for sbi, tg in empties)
-            instances.append({'rule': 'R-STRIP', 'function': b.q, 'dropped_at': st['loc'], 'behind_empty_offsets_edge': ok})
-            if not ok:
-                finding('R-STRIP', par.q, 'dropped-with-offsets-left', 'an entry is dropped from the set of wanted chunks at %s on a path that has not found its list of '
-                        'remaining offsets empty: places that still need the chunk are never written' % st['loc'])
+                out.append((bi, sw['otherwise'] if ct[1] == 'Eq' else dict(zip(sw['vals'], sw['targets'])).get(0)))
+        return [(x, y) for x, y in out if y is not None]
+    n_strip = 0
+    for b in facts.bodies.values():
+        par = facts.original.get(b.raw.get('parent') or '')
+        if b.generated:
+            continue
+        in_closure = b.raw['kind'] == 'Closure' and par is not None and par.q == STRIP
+        if not in_closure and b.q != STRIP:
+            continue
+        empties = empty_edges(b)
+        if in_closure and b.lty(0).get('adt') == 'core::option::Option':
+            # form A: a filter_map closure - an entry is dropped by returning None
+            drops = [(bi, st) for bi in b.live for st in b.blocks[bi]['stmts']
+                     if st['k'] == 'assign' and not st['pl']['p'] and st['pl']['l'] == 0 and st['rv']['k'] == 'agg' and st['rv'].get('vname') == 'None']
+            if not drops:
+                continue
+            n_strip += 1
+            for bi, st in drops:
+                ok = any(not _reachable_without_edge(b, (sbi, tg), bi) for sbi, tg in empties)
+                instances.append({'rule': 'R-STRIP', 'function': b.q, 'dropped_at': st['loc'], 'behind_empty_offsets_edge': ok})
+                if not ok:
+                    finding('R-STRIP', par.q, 'dropped-with-offsets-left', 'an entry is dropped from the set of wanted chunks at %s on a path that has not found its list of '
+                            'remaining offsets empty: places that still need the chunk are never written' % st['loc'])
+        elif in_closure and b.lty(0).get('k') == 'bool' and any('q' in t_['callee'] and callee_q(t_).endswith('::retain') for _, t_ in (facts.bodies.get(par.id) or par).calls()):
+            # form B: a retain closure - an entry is dropped by returning false
+            n_strip += 1
+            for bi in b.live:
+                for st in b.blocks[bi]['stmts']:
+                    if st['k'] != 'assign' or st['pl']['p'] or st['pl']['l'] != 0:
+                        continue
+                    rv = st['rv']
+                    if rv['k'] == 'use' and rv['op']['k'] == 'const':
+                        if rv['op'].get('int'):
+                            continue        # keep
+                        ok = any(not _reachable_without_edge(b, (sbi, tg), bi) for sbi, tg in empties)
+                    else:
+                        term = simplify(T.of_rvalue(b, rv, 0))
+                        inner = term[2] if isinstance(term, tuple) and term[0] == 'unop' and term[1] == 'Not' else None
+                        ok = (inner is not None and inner[0] == 'call' and inner[1].endswith('::is_empty')) or \
+                            (isinstance(term, tuple) and term[0] == 'binop' and term[1] in ('Ne', 'Gt') and has_call(term, '::len') and ('const', 0) in (term[2], term[3]))
+                    instances.append({'rule': 'R-STRIP', 'function': b.q, 'keep_decided_at': st['loc'], 'false_only_when_empty': ok})
+                    if not ok:
+                        finding('R-STRIP', par.q, 'dropped-with-offsets-left', 'the retain filter can drop an entry at %s although its list of remaining offsets was not found empty: '
+                                'places that still need the chunk are never written' % st['loc'])
+        elif b.q == STRIP:
+            # form C: a loop that copies the entries to keep into a new map - an entry is dropped by starting the next turn
+            # without having been inserted
+            inserts = {bi for bi, t_ in b.calls() if 'q' in t_['callee'] and callee_q(t_).endswith(('HashMap::insert', 'HashMap::entry', 'Vec::push'))}
+            if not inserts:
+                continue
+            from .r_misc import _variant_edges
+            eset = set(empties)
+            for hbi, ht in b.calls():
+                if 'q' not in ht['callee'] or ht['callee']['q'] != 'core::iter::traits::iterator::Iterator::next' or ht['dest']['p']:
+                    continue
+                for sbi, tgt in _variant_edges(b, ht['dest']['l'], 1):
+                    seen_insert = []
+                    skipped = []
+
+                    class Turn(Rule):
+                        init = (False, False)
+
+                        def on_term(self_, b_, bi, t, stt):
+                            ins, emp = stt
+                            if bi == hbi:
+                                if ins:
+                                    seen_insert.append(1)
+                                elif not emp:
+                                    skipped.append(t['loc'])
+                                return []
+                            if bi in inserts:
+                                ins = True
+                            if t['k'] == 'switch' and any((bi, s2) in eset for s2 in succs(t)):
+                                return [(s2, (ins, emp or (bi, s2) in eset)) for s2 in set(succs(t))]
+                            return (ins, emp)
+                    Explorer(b, Turn(), start=tgt).run()
+                    if not seen_insert:
+                        continue            # not the loop over the entries (an inner loop over offsets)
+                    n_strip += 1
+                    instances.append({'rule': 'R-STRIP', 'function': b.q, 'loop_at': ht['loc'], 'turns_that_drop_without_empty_test': len(skipped)})
+                    if skipped:
+                        finding('R-STRIP', b.q, 'dropped-with-offsets-left', 'a turn of the loop that rebuilds the set of wanted chunks can end without keeping the entry '
+                                'although its list of remaining offsets was not found empty')
     if n_strip < 1:
         finding('R-STRIP', '-', 'floor', 'the filter that drops chunks already in place was not found (cannot decide)')
 
